@@ -345,7 +345,7 @@ def run(tier, seed):
   if tier == "quick":
     nprog, per, nblocks, max_pairs, n_sa = 64, 4, (3, 7), 18, 4
   else:
-    nprog, per, nblocks, max_pairs, n_sa = 480, 10, (4, 12), 40, 8
+    nprog, per, nblocks, max_pairs, n_sa = 360, 10, (4, 12), 40, 8
   nprog = int(os.environ.get("VERIF_C03_NPROG", nprog))   # development aid only
   seeds = [f"{seed}-{i}-{rng.randrange(1 << 30)}" for i in range(nprog)]
   tasks = []
